@@ -85,7 +85,7 @@ func runCheck(repo, prop, tier string, opts SolveOpts) int {
 	}
 	if tier == "thorough" {
 		opts.AllSolvers = true
-		opts.SingleMs = 60000
+		opts.SingleMs = 180000
 		opts.QuickMs = 10000
 	}
 	evPath := filepath.Join(vdir, "evidence", prop+".json")
@@ -115,8 +115,14 @@ func runCheck(repo, prop, tier string, opts SolveOpts) int {
 		return runFrameProperty(eng, prop, tier, seed, t0, vdir, evPath)
 	}
 	var items []*Contract
+	var deferred []string
 	for _, c := range eng.Items {
 		if c.hasProp(prop) {
+			if c.Opts["tier"] == "thorough" && tier != "thorough" {
+				// proofs that need more solver time than the quick tier allows are only run in the thorough tier
+				deferred = append(deferred, shortName(c.Name))
+				continue
+			}
 			items = append(items, c)
 		}
 	}
@@ -306,6 +312,7 @@ func runCheck(repo, prop, tier string, opts SolveOpts) int {
 			"callees_without_contract_havocked": keysOf(uncontracted),
 			"unmodelled":                        unmodelled,
 			"known_findings_printed":            knownPrinted,
+			"deferred_to_thorough_tier":         deferred,
 			"explanation":                       "every obligation is generated from the go/ssa form of /repo's current working tree (tag verif) and discharged by an SMT solver; see DESIGN.md",
 		}}
 	addBounded(eng, prop, tier, &ev, &exit, vdir)
